@@ -159,6 +159,9 @@ def run(ctx):
     if kind == 's' and depth_left > 0:
       cands = [c for c in classes if c.width <= budget and c.depth <= depth_left]
       if cands:
+        if rng.random() < 0.4:
+          dmax = max(c.depth for c in cands)
+          return ('s', rng.choice([c for c in cands if c.depth == dmax]))
         return ('s', rng.choice(cands[-12:] + cands[:3]))
       kind = 'b'
     if kind == 'l':
@@ -244,7 +247,7 @@ def run(ctx):
   except CreateFailed:
     BS._create_fn, BS.py = real_create, real_py
     return
-  nrand = (140 if quick else 420) if rp is None else len(classes) - 12
+  nrand = (110 if quick else 420) if rp is None else len(classes) - 12
   tries = 0
   while len(classes) < 12 + nrand and tries < 3 * nrand:
     tries += 1
@@ -269,7 +272,7 @@ def run(ctx):
       ('__ilshift__',  lambda: f'GSlots {TR.t_paths(TR.parse_augassign(c, c.src["__ilshift__"], "__ilshift__", TR.ast.LShift))}'),
       ('_flip',        lambda: f'GSlots {TR.t_paths(TR.parse_flip(c, c.src["_flip"]))}'),
       ('__eq__',       lambda: f'GFields {TR.t_paths(TR.parse_eq(c, c.src["__eq__"]))}'),
-      ('__hash__',     lambda: f'GFields {TR.t_paths(TR.parse_hash(c, c.src["__hash__"]))}'),
+      ('__hash__',     lambda: (lambda kp: ('GFields ' if kp[0] == 'fields' else 'GSlots ') + TR.t_paths(kp[1]))(TR.parse_hash(c, c.src["__hash__"]))),
     ]
     for m, p in parsers:
       try:
@@ -300,7 +303,7 @@ def run(ctx):
   e_cases, e_meta = [], []      # ==        (T, v, w, observed)
   s_cases, s_meta = [], []      # scenarios
   hash_raised = []
-  nvals = 6 if quick else 10
+  nvals = 5 if quick else 10
   def viol_value(kind, c, what, extra):
     h = hashlib.sha1(json.dumps([kind, c.spec(), extra.get('value'), extra.get('bits')], default=str).encode()).hexdigest()[:10]
     ctx.violation(f'C06:{kind}:{h}', what, dict({'shape': c.spec()}, **extra))
